@@ -4,10 +4,10 @@
     No [Extract Constant]. *)
 From Coq Require Extraction ExtrOcamlBasic.
 From SA Require Import Model.
-From SA.Mon Require Import C09 C07 C12 Control C15 C18 C08 Verdict C03 C04 C06 C19 C13 C18b Summary C07x C05h.
+From SA.Mon Require Import C09 C07 C12 Control C15 C18 C08 Verdict C03 C04 C06 C19 C13 C18b Summary C07x C05h C05s.
 From SA.Spec Require Import FirstViolation.
 From SA.Spec Require Import Json Codec.
 Extraction Language OCaml.
 Extraction "model.ml" run binop_name prim_ty_name cmpop_name logicop_name err_kind_name all_err_kind
-  chk_C09 chk_C07 judged_C07 chk_C12 chk_C10_unique chk_C10_resolve chk_C11 chk_C05 chk_C15 chk_C18 chk_C08 f7_count chk_C14 chk_C02 chk_C01 chk_C01_quirk wf_b accepted_spec_b first_violation chk_C03 chk_C04 chk_C06 chk_C06_scoped chk_C19 chk_C19_strict chk_C07_shape judged_C07_shape chk_C05h in_domain_b chk_C18_values summary
+  chk_C09 chk_C07 judged_C07 chk_C12 chk_C10_unique chk_C10_resolve chk_C11 chk_C05 chk_C15 chk_C18 chk_C08 f7_count chk_C14 chk_C02 chk_C01 chk_C01_quirk wf_b accepted_spec_b first_violation chk_C03 chk_C04 chk_C06 chk_C06_scoped chk_C19 chk_C19_strict chk_C07_shape judged_C07_shape chk_C05hs in_domain_b chk_C18_values summary
   enc_program enc_stack enc_errors enc_gstack.
